@@ -22,7 +22,7 @@ def const_preamble(r):
     return "\n".join(lines) + "\n"
 
 TEXTS = ["Hello there", "100% sure %s %d", "ROUTE 1 \u3000PALLET \u00a0TOWN", "aaaa aaa aa aaa aa aaa aa aaa aa aaa", "Price: 100$", "é ñ ü 𠮷野 😀", "{PLAYER} got {STR_VAR_1}!", "a\\nb\\lc\\pd", "x{y z}w }", "", "$", "ends\\0",
-         "tab\\there", "many   spaces   here", "LV. 50", "K_ONE", "VAR_A", "A", "lock", "Total: \\0", "a \\h b \\0", "\\0 \\x"]
+         "tab\\there", "many   spaces   here", "LV. 50", "K_ONE", "VAR_A", "A", "lock", "Total: \\0", "a \\h b \\0", "\\0 \\x", "\\0", "\\\\\\0", "$", "\\"]
 TYPES = ["", "", "ascii", "braille", "custom", "jp"]
 
 def lit(r, t=None):
@@ -130,13 +130,13 @@ def gen_mix(rnd, n, tier="quick"):
 # boundary shapes: counts 0 / 1 / 10+ (two-digit numbering), adjacency of equal statement kinds,
 # first / last positions, empty constructs, extreme number literals, awkward characters
 NUMS = ["0", "1", "9", "10", "11", "99", "100", "255", "256", "9999", "10000", "65535", "65536", "2147483647", "2147483648", "4294967296",
-        "9223372036854775807", "9223372036854775808", "0x0", "0xFF", "0xff", "0x10000", "0x7fffffffffffffff", "00", "07", "010", "08", "-1", "-0", "-9999", "1_000"]
+        "9223372036854775807", "9223372036854775808", "0x0", "0xFF", "0xff", "0x10000", "0x7fffffffffffffff", "00", "07", "010", "08", "-1", "-0", "-9999", "1_000", "٣", "1２3", "-٣"]
 CHARS = ["%", "%s", "%%", "\\\\", "$", "$$", "{", "}", "{}", "{A}", "'", "é", "\u3000", "\u00a0", "😀", "\\n", "\\p\\p", "\\0", ";", "`", "#not", "//not", "\t"]
 
 def boundary_program(r, k):
     p = "B%d" % k; out = []
     def txt(): return "w%s %s x" % (r.choice(NUMS[:8]), r.choice(CHARS))
-    shape = r.choice(["manytexts", "manymoves", "longlists", "adjacent", "empties", "numbers", "elifs", "cases", "names", "edges", "manyscripts", "repeats", "repeats", "nested", "constsites", "constsites"])
+    shape = r.choice(["manytexts", "manymoves", "longlists", "adjacent", "empties", "numbers", "elifs", "cases", "names", "edges", "manyscripts", "repeats", "repeats", "nested", "constsites", "constsites", "keys"])
     if shape == "manytexts":
         n = r.choice([10, 11, 12, 21])
         out.append("script %s {\n%s\n}" % (p, "\n".join('  msgbox("t%d %s")' % (i, r.choice(CHARS)) for i in range(n))))
@@ -189,6 +189,16 @@ def boundary_program(r, k):
         first = r.choice(["mart E_m { ITEM_A }", 'text E_t { "x" }', "movement E_v { walk_up }", "raw `x`", "const E_K = 1", "# c", "mapscripts E_s { }", ""])
         out.append(first); out.append("script %s { lock }" % p)
         out.append(r.choice(["mart %s_m { ITEM_A }" % p, 'text %s_t { "x%%" }' % p, "movement %s_v { walk_up }" % p, "raw `y`", "const %s_K = 2" % p, "// end", "script %s_z { end }" % p]))
+    elif shape == "keys":
+        # hoisted items whose sharing keys nearly collide: equal only after concatenation / run-length / type stripping
+        ml = r.sample([["delay_1"] * 6, ["delay_16"], ["delay_1", "delay_16"], ["delay_11", "delay_6"], ["walk_up", "walk_down"], ["walk_upwalk_down"], ["walk_up"] * 2, ["walk_up2"], ["walk_up", "walk_up", "walk_up"], ["walk_up"] * 12], 4)
+        def ms(l):
+            if len(set(l)) == 1 and len(l) > 1 and r.random() < 0.7: return "%s * %d" % (l[0], len(l))
+            return " ".join(l)
+        for i, l in enumerate(ml): out.append("script %s_m%d { applymovement(%d, moves(%s)) }" % (p, i, i, ms(l)))
+        tl = r.sample(['"ab"', '"a" "b"', '"a\\nb"', 'ascii"ab"', '"ab$"', '"ab\\0"', 'ascii"ab\\0"', 'braille"ab"', '"a b"', '"a  b"', 'format("a b")', 'format("a  b")', '"AB"', '"ab "'], 5)
+        for i, t in enumerate(tl): out.append("script %s_t%d { msgbox(%s) }" % (p, i, t))
+        out.append("script %s_both { two(%s, %s) applymovement(9, moves(%s)) }" % (p, tl[0], tl[1], ms(ml[0])))
     elif shape == "constsites":
         # constants (short, 31 / 32 / 40-byte and non-ASCII names; plain, multi-token and %-values) at every site where a
         # constant is substituted, and at the places where it must NOT be (names, labels, steps, text, map script targets,
